@@ -3,7 +3,7 @@
    source at every run by tools/gen/locksets.go. *)
 From Coq Require Export String List NArith Bool.
 Export ListNotations.
-Open Scope string_scope.
+Local Open Scope string_scope.
 
 Inductive akind := KRd | KWr | KEsc.   (* read, write, a reference into the structure leaves the function *)
 Inductive part := Slot | Cont.          (* the field itself / what a reference field points to (map, backing array, ring) *)
@@ -67,6 +67,22 @@ Definition access_okb (ex : list exemption) (accs : list access) (a : access) : 
    | KWr => guardedb a true
    | KRd => negb (writtenb ex accs a) || guardedb a false
    end).
+
+(* ---- what the boolean form means (Prop versions; Proofs/C18_Table.v: access_okb_sound) ---- *)
+Definition exempt (ex : list exemption) (a : access) : Prop := exists e, In e ex /\ fst e = a_fn a.
+Definition written (ex : list exemption) (accs : list access) (a : access) : Prop :=
+  exists b, In b accs /\ same_loc a b = true /\ a_kind b <> KRd /\ ~ exempt ex b.
+Definition holds_guard (a : access) (need_excl : bool) : Prop :=
+  exists g l, guard_of (a_ty a) (a_field a) = Some g /\ In l (a_locks a) /\ l_name l = g /\ (need_excl = true -> l_excl l = true).
+
+(* the premise of lockset_drf, for one entry: a write holds the designated guard exclusively, a read of a
+   location that anything writes holds it at least shared; the walk followed the function; nothing escapes *)
+Definition access_ok (ex : list exemption) (accs : list access) (a : access) : Prop :=
+  exempt ex a \/
+  (a_unknown a = false /\ a_kind a <> KEsc /\
+   (a_kind a = KWr -> holds_guard a true) /\
+   (a_kind a = KRd -> written ex accs a -> holds_guard a false)).
+
 
 Definition discipline_okb (ex : list exemption) (accs : list access) : bool := forallb (access_okb ex accs) accs.
 Definition offending (ex : list exemption) (accs : list access) : list access := filter (fun a => negb (access_okb ex accs a)) accs.
